@@ -70,8 +70,10 @@ def generated_items(tier, seed):
     for i in range(PLAN[tier]["generated"]):
         s = rng.stream(NAME, tier, seed, i, "structure")
         mode = s.random()
-        if mode < 0.6:
+        if mode < 0.55:
             st = structures.gen_multi_group(s, 2, 4)
+        elif mode < 0.65:
+            st = structures.gen_many(s, 10, 14)
         else:
             st = structures.gen_structure(s, max_stems=6, max_len=3, knotted_bias=0.7)
         out.append({"id": "gen/%d" % i, "type": "bpseq", "triples": st["triples"],
